@@ -59,6 +59,29 @@ Theorem C07_isupport_cannot_stall :
 Proof. split; [exact tag_safe|exact isupport_valueless_harmless]. Qed.
 Print Assumptions C07_isupport_cannot_stall.
 
+(* Which methods of a callback class get log.firewall is COMPUTED: a Gallina model of MetaFirewall.__new__ (merge of
+   the __firewalled__ dictionaries over the bases; table pin METAFIREWALL_MERGES_MRO for its shape) over the regenerated
+   class table PYCLASSES (bases, MRO and own __firewalled__ of IrcCallback, BasePlugin, Commands, PluginMixin, Plugin,
+   PluginRegexp, ...).  For every kind of callback — derived from irclib.IrcCallback, from callbacks.Plugin (every real
+   plugin) or from callbacks.PluginRegexp — the inFilter, __call__ and outFilter it defines are firewalled, and a callback
+   of that kind raising from all three cannot stop the PONG.  (Repair of C07.F46: with the per-base attribute lookup
+   Plugin-derived classes only inherited Commands' dictionary; fw_cb KPlugin outFilter computed to false and a raising
+   outFilter made the firewalled takeMsg drop every outgoing message.)  C07_loop_survives and C07_ping_after quantify
+   over callbacks of all kinds. *)
+Theorem C07_raising_callback_cannot_stop_pong :
+  forall k : cbkind,
+  (fw_cb k s_outFilter = true /\ fw_cb k s_inFilter = true /\ fw_cb k s_call = true) /\
+  (let ms := run_reads unit (fun _ => true) dec0 h0 h0 [cb_raising k]
+               [RData [70; 79; 79; 10; 80; 73; 78; 71; 32; 58; 97; 10]] (init tt) in
+   alive ms = true /\ escapes ms = [None] /\ sent (fst (m_p ms)) = [[97]]).
+Proof.
+  intro k. split; [|exact (raising_kind_answered k)].
+  pose proof T_cbfw as H. unfold callback_fw_ok in H. rewrite forallb_forall in H.
+  assert (Hk : In k all_kinds) by (destruct k; cbn; tauto). specialize (H k Hk).
+  apply Bool.andb_true_iff in H as [H H3]. apply Bool.andb_true_iff in H as [H1 H2]. auto.
+Qed.
+Print Assumptions C07_raising_callback_cannot_stop_pong.
+
 (* THE FULL STATEMENT.  For every byte stream, every decode function, every chunking, every sequence of recv faults
    that _read's except clauses name (socket.timeout, SSLError, socket.error, close), every handler raising Exception
    subclasses and every callback raising anything: the driver stays registered, drivers.run() does not crash and nothing
